@@ -350,7 +350,7 @@ def conforming(rng, nfuncs=None, depth=2, recursion=True):
         defined = list(avail_tmp)
         for _ in range(n):
             k = rng.random()
-            if k < 0.35 or not defined:
+            if k < 0.35:
                 t = rng.choice(TEMPS)
                 out.append("li %s, %d" % (t, rng.randrange(-50, 50)))
                 # use it right away so the value is never dead
@@ -376,9 +376,10 @@ def conforming(rng, nfuncs=None, depth=2, recursion=True):
                 out.append("addi a0, a0, -1")
                 out.append("j %s" % l_top)
                 out.append("%s:" % l_out)
-            elif k < 0.92 and fns:
-                callee = rng.choice(fns)
-                if fn is None or recursion or callee is not fn:
+            elif k < 0.92 and [c for c in fns if fn is None or fns.index(c) < fns.index(fn)]:
+                # (calls go to functions defined earlier: no unbounded recursion, and what a callee reads is what its body says)
+                callee = rng.choice([c for c in fns if fn is None or fns.index(c) < fns.index(fn)])
+                if True:
                     for a in range(callee.nargs):
                         if a > 0:
                             out.append("li a%d, %d" % (a, rng.randrange(0, 9)))
@@ -512,6 +513,14 @@ def inject(rng, lines, kind):
         i = calls[-1] + 1                 # a0 is whatever the callee returned: not a constant
         L[i:i] = ["add a7, a0, a0", "ecall", "li a0, 0"]
         return L, "unknown-ecall", "add a7, a0, a0\necall"
+    if kind == "invalid-segment" and fn_starts and rng.random() < 0.35:
+        # a whole function left in the data segment: EVERY instruction of it is in the wrong place (also its second return)
+        f = rng.choice(fn_starts)
+        end = next((i for i in fn_starts if i > f), len(L))
+        L[end:end] = [".text"]
+        L[f:f] = [".data"]
+        inst = [i for i in range(f + 2, end + 1) if not L[i].endswith(":")]
+        return L, "invalid-segment", L[inst[0]], inst[1:]
     if kind == "invalid-segment":
         i = rng.randrange(2, main_end - 1)
         L[i:i] = [".data", "addi a0, a0, 1", ".text"]
